@@ -242,7 +242,11 @@ pub fn verif_async_read(
             }
         }
     }
-    // the read requests sent along the handle are answered by the pool's worker; stop it
+    // the read requests sent along the handle are answered by the pool's worker: wait for them, then
+    // stop the worker
+    for _ in submits.iter().filter(|s| s.is_some()) {
+        let _ = io_handle.recv();
+    }
     drop(reader);
     drop(io_handle);
     io_pool.shutdown();
